@@ -10,6 +10,7 @@ import (
 type c10P interface {
 	Subscribe(onNext func(int)) interface{} // onNext == nil: a zero-value Subscription
 	Unsubscribe(ptr interface{})
+	SetOnNext(ptr interface{}, onNext func(int)) // through the pointer Subscribe returned; nil clears it
 	Publish(v int)
 	Map(fn func(int) int) c10P
 	SubscribeOn(h *fpgo.HandlerDef)
@@ -25,6 +26,7 @@ func (a c10PG) Subscribe(onNext func(int)) interface{} {
 	return a.p.Subscribe(fpgo.Subscription[int]{OnNext: onNext})
 }
 func (a c10PG) Unsubscribe(ptr interface{})     { a.p.Unsubscribe(ptr.(*fpgo.Subscription[int])) }
+func (a c10PG) SetOnNext(ptr interface{}, onNext func(int)) { ptr.(*fpgo.Subscription[int]).OnNext = onNext }
 func (a c10PG) Publish(v int)                   { a.p.Publish(v) }
 func (a c10PG) Map(fn func(int) int) c10P       { return c10PG{a.p.Map(fn)} }
 func (a c10PG) SubscribeOn(h *fpgo.HandlerDef)  { a.p.SubscribeOn(h) }
@@ -39,6 +41,13 @@ func (a c10PI) Subscribe(onNext func(int)) interface{} {
 	return a.p.Subscribe(fpgo.Subscription[interface{}]{OnNext: func(v interface{}) { onNext(v.(int)) }})
 }
 func (a c10PI) Unsubscribe(ptr interface{}) { a.p.Unsubscribe(ptr.(*fpgo.Subscription[interface{}])) }
+func (a c10PI) SetOnNext(ptr interface{}, onNext func(int)) {
+	if onNext == nil {
+		ptr.(*fpgo.Subscription[interface{}]).OnNext = nil
+		return
+	}
+	ptr.(*fpgo.Subscription[interface{}]).OnNext = func(v interface{}) { onNext(v.(int)) }
+}
 func (a c10PI) Publish(v int)               { a.p.Publish(v) }
 func (a c10PI) Map(fn func(int) int) c10P {
 	return c10PI{a.p.Map(func(v interface{}) interface{} { return fn(v.(int)) })}
